@@ -1,5 +1,5 @@
 (* C12 — bath correlation functions and their 2D integrals are consistent and correct. *)
-From Coq Require Import Reals Arith.
+From Coq Require Import Reals Arith Lra Psatz.
 From Coquelicot Require Import Coquelicot.
 From OQ Require Import Lib.RingSum Model.Shapes Proofs.ShapesSpec Analysis.Eta.
 
@@ -75,3 +75,35 @@ Theorem rectangle_splits :
   forall (K : Ring) (G : nat -> K) t1 t2 t3, rect_cell G t1 t3 = radd (rect_cell G t1 t2) (rect_cell G t2 t3).
 Proof. exact ShapesSpec.rectangle_splits. Qed.
 Print Assumptions rectangle_splits.
+
+(* (7) the overflow guard of eta_function.  For exp(-w/T) = x below machine epsilon the code replaces the thermal
+   kernel  (A + x conj(A) - x - 1)/(1 - x) + i w tau   (A = exp(-i w tau)) by the zero-temperature one,
+   A - 1 + i w tau.  The two differ by exactly  x (A + conj(A) - 2)/(1 - x): for A on the unit circle a real number
+   in [-4x/(1-x), 0] — the guard changes only the real part of the integrand, by at most 4 eps/(1 - eps) relatively to
+   the zero-temperature kernel's scale, and the linear term i w tau must be present in BOTH branches.  Stated for the
+   real and imaginary parts (re A, im A) = (c, s) separately, over the reals, any x <> 1. *)
+Theorem overflow_guard_identity :
+  forall c s x wt : R, (1 - x <> 0)%R ->
+    (* real part *)
+    (((c + x * c - x - 1) / (1 - x)) - (c - 1) = x * (2 * c - 2) / (1 - x))%R /\
+    (* imaginary part: conj(A) contributes -s *)
+    (((s - x * s) / (1 - x) + wt) - (s + wt) = 0)%R.
+Proof. intros c s x wt H. split; field; exact H. Qed.
+Print Assumptions overflow_guard_identity.
+
+Theorem overflow_guard_bound :
+  forall c x : R, (-1 <= c <= 1)%R -> (0 <= x < 1)%R ->
+    (- (4 * x / (1 - x)) <= x * (2 * c - 2) / (1 - x) <= 0)%R.
+Proof.
+  intros c x [Hc1 Hc2] [Hx1 Hx2].
+  assert (Hd : (0 < 1 - x)%R) by lra.
+  assert (Hi : (0 < / (1 - x))%R) by (apply Rinv_0_lt_compat; exact Hd).
+  assert (Hn : (x * (2 * c - 2) <= 0)%R) by nra.
+  assert (Hm : (- (4 * x) <= x * (2 * c - 2))%R) by nra.
+  unfold Rdiv. split.
+  - replace (- (4 * x * / (1 - x)))%R with ((- (4 * x)) * / (1 - x))%R by ring.
+    apply Rmult_le_compat_r; [left; exact Hi|exact Hm].
+  - replace 0%R with (0 * / (1 - x))%R by ring.
+    apply Rmult_le_compat_r; [left; exact Hi|exact Hn].
+Qed.
+Print Assumptions overflow_guard_bound.
